@@ -135,10 +135,14 @@ Clause(cfg, s0, e) ==
              [] OTHER -> "ok" )
     [] e.act = "strategy" ->
          LET y == L!EvalF(L!UpdateF(x, "T"), e.lossk) IN
+         \* when the strategy is consulted the parameters hold the trial point base (+) D - or, for a trial that is being
+         \* rejected (its loss is not below the given one), already the base point again: WHEN a rejected trial is undone
+         \* relative to the strategy call is not part of the property (found by a behaviour-preserving refactoring)
          ( CASE x.phase # "solved"                        -> "strategy_out_of_order"
-             [] Exact(cfg) /\ e.p # VAdd(s0.base, s0.D)   -> "update_applies_step"
-             [] ~Exact(cfg) /\ e.ed > cfg.tolR            -> "update_applies_step"
-             [] ~LossTrue(cfg, e, e.lossk, e.lerr)        -> "trial_loss_is_true_loss"
+             [] ~( (IF Exact(cfg) THEN e.p = VAdd(s0.base, s0.D) ELSE e.ed <= cfg.tolR)
+                   \/ (~(e.lossk < e.lastk) /\ AtBase(cfg, s0, e)) ) -> "update_applies_step"
+             [] ~(IF Exact(cfg) THEN e.lossk = TrueLoss(cfg.model, VAdd(s0.base, s0.D)) ELSE e.lerr <= cfg.tolU)
+                                                          -> "trial_loss_is_true_loss"
              [] e.lastk # x.last                          -> "strategy_last_is_given_loss"
              [] ~L!StratWithinBounds(cfg, Logged(cfg, e)) -> "damping_within_bounds"
              [] ~(\E q \in QSet(cfg, s0, e) : StratEq(cfg, e, L!StrategyF(cfg, y, q)))
